@@ -9,7 +9,8 @@ def parseKind : String â†’ Option Kind
 def numAfter (s : String) (n : Nat) : Option Nat := (s.drop n).toString.toNat?
 
 def parseOp (t : String) : Option Op :=
-  if t == "N" || t == "NQ" then some (.newStream false) else if t == "NF" then some (.newStream true)
+  if t == "N" || t == "NQ" then some (.newStream .ok) else if t == "NF" then some (.newStream .refused)
+  else if t == "NT" then some (.newStream .timeout)
   else if t == "S" then some .shutdown else if t == "Z" then some .closeAll
   else if t == "E+" then some .extInc else if t == "E-" then some .extDec
   else if t.startsWith "RC" then (numAfter t 2).map (fun n => .response n true)
@@ -62,8 +63,8 @@ def specAlong (maxConn maxReq : Nat) : Nat â†’ Obs â†’ List Op â†’ List String â
     | some (res, o) =>
       let ext' := match op with | .extInc => ext + 1 | .extDec => ext - 1 | _ => ext
       let stepOk := match op with
-        | .newStream f => (res.startsWith "ok" || res == "ovf" || res == "cf") &&
-            newStreamSpec maxConn maxReq ext f before (res.startsWith "ok") o
+        | .newStream f => (res.startsWith "ok" || res == "ovf" || res == "cf" || res == "ct") &&
+            newStreamSpec maxConn maxReq ext f.fails before (res.startsWith "ok") o
         | _ => res == "-"
       stepOk && obsSpec maxReq ext' o && specAlong maxConn maxReq ext' o ops ts
 
